@@ -17,12 +17,11 @@ limitations under the License.
 package composite
 
 import (
+	"bytes"
 	"context"
 	"math/rand"
 	"time"
 
-	"github.com/google/go-cmp/cmp"
-	"github.com/google/go-cmp/cmp/cmpopts"
 	corev1 "k8s.io/api/core/v1"
 	"k8s.io/apimachinery/pkg/runtime"
 	"k8s.io/apimachinery/pkg/types"
@@ -98,11 +97,20 @@ func (a *APIFilteredSecretPublisher) PublishConnection(ctx context.Context, o re
 	err := a.client.Apply(ctx, s,
 		resource.ConnectionSecretMustBeControllableBy(o.GetUID()),
 		resource.AllowUpdateIf(func(current, desired runtime.Object) bool {
-			// We consider the update to be a no-op and don't allow it if the
-			// current and existing secret data are identical.
+			// We consider the update to be a no-op and don't allow it if every
+			// key we would publish is already stored with an identical value.
+			// The patch never removes keys from the existing secret, so keys
+			// that we no longer publish must not make the update look needed.
 
 			//nolint:forcetypeassert // These will always be secrets.
-			return !cmp.Equal(current.(*corev1.Secret).Data, desired.(*corev1.Secret).Data, cmpopts.EquateEmpty())
+			cur := current.(*corev1.Secret).Data
+			//nolint:forcetypeassert // These will always be secrets.
+			for k, v := range desired.(*corev1.Secret).Data {
+				if cv, ok := cur[k]; !ok || !bytes.Equal(cv, v) {
+					return true
+				}
+			}
+			return false
 		}),
 	)
 	if resource.IsNotAllowed(err) {
